@@ -85,7 +85,7 @@ def gen_exhaustive(chk, dist):
     configurations, each as a one-state case on a reset window; quick tier takes
     a stratum."""
     rng = chk.rng
-    stratum = 0.5 if chk.tier == "thorough" else 0.016
+    stratum = 0.35 if chk.tier == "thorough" else 0.016
     docs = docs_small()
     for cfg in cfgs_small():
         extra = margin_extra(cfg)
@@ -505,7 +505,7 @@ def main(tier):
                             "Exhaustive stratum: %d documents x all cursors x widths 1..12 x heights 1..6 x %d configurations (%s); "
                             "non-trivial = some state scrolled (vertical, intra-line or horizontal); distinct by hash of the whole case. "
                             "Oracle evaluated on states inside the property's quantifier (body width >= widest character + prefix)." % (
-                                len(docs_small()), len(cfgs_small()), "50% sample" if chk.tier == "thorough" else "1.6% sample"))
+                                len(docs_small()), len(cfgs_small()), "35% sample" if chk.tier == "thorough" else "1.6% sample"))
     chk.assumptions += [
         "character widths (get_cwidth of the source character, Char.width and Char.char of the displayed form) are inputs of the model, measured on the implementation per case; the theorems quantify over arbitrary width functions",
         "processors other than BeforeInput and TabsProcessor (highlighting, password, auto-suggestion) and of the margins anything but NumberedMargin's and ScrollbarMargin's widths are outside the model; the default highlight processors are present in the real control and tied only as far as they leave text unchanged",
